@@ -62,6 +62,12 @@ def gen_case(rng, params, index):
         kind, line = rng.choice(REJECT_SHAPES + ACCEPT_TWINS)
         qml = ("import qmluic.QtWidgets\nQWidget {\n    id: root\n    QVBoxLayout {\n        SimWidget {\n            id: w1\n            %s\n        }\n"
                "        SimWidget { id: w2; outFlag: w1.flag }\n    }\n}\n" % line)
+        # valid handlers that raise a warning ('return type is ignored'), visited after the unobservable read: on the later
+        # object (post-order walk) and sometimes on the same one (hash order)
+        if rng.chance(0.6):
+            qml = qml.replace("outFlag: w1.flag }", "outFlag: w1.flag; onFired: function(): void { w1.reset() } }")
+        if rng.chance(0.3):
+            qml = qml.replace("            id: w1\n", "            id: w1\n            onFired: function(): void { w2.reset() }\n", 1)
         return {"kind": "rejection", "shape": kind, "expect_reject": (kind, line) in REJECT_SHAPES, "qml": qml, "type_name": "Doc", "doc_first": rng.chance(0.5)}
     if rng.chance(0.15):
         # functions with 2-5 observers (one block and several blocks), chains of two hops: every observer slot must
